@@ -153,6 +153,7 @@ func c15Round(r *core.Run, idx int, rng *rand.Rand) {
 		host     string
 		sessions []string
 		acsOf    map[string]string // consumer URL persisted for each session
+		answered map[string]bool   // sessions that already got a Success
 		ref      []refAttr         // attributes of the user as registered (deep copy)
 	}
 	cs := make([]*clientState, clients)
@@ -173,7 +174,7 @@ func c15Round(r *core.Run, idx int, rng *rand.Rand) {
 		u := randUser(rand.New(rand.NewSource(int64(idx*1000+c))), fmt.Sprintf("U_MK_c%dx", c), false)
 		e.W.AddUser(u)
 		userOfApp[fmt.Sprintf("appc%d", c)] = u
-		cs[c] = &clientState{sp: d, user: u, host: fmt.Sprintf("hc%d.idp.example", c), acsOf: map[string]string{}}
+		cs[c] = &clientState{sp: d, user: u, host: fmt.Sprintf("hc%d.idp.example", c), acsOf: map[string]string{}, answered: map[string]bool{}}
 		for _, a := range refAttributes(u) {
 			a.Values = append([]string(nil), a.Values...)
 			cs[c].ref = append(cs[c].ref, a)
@@ -205,7 +206,7 @@ func c15Round(r *core.Run, idx int, rng *rand.Rand) {
 		seeds[c] = rng.Int63()
 	}
 	kinds := map[string]*atomic.Int64{}
-	for _, k := range []string{"sso", "callback_done", "callback_pending", "logout", "query", "metadata", "certificate"} {
+	for _, k := range []string{"sso", "callback_done", "callback_pending", "callback_repeated_refused", "logout", "query", "metadata", "certificate"} {
 		kinds[k] = &atomic.Int64{}
 	}
 	var wg sync.WaitGroup
@@ -331,8 +332,15 @@ func c15Round(r *core.Run, idx int, rng *rand.Rand) {
 					call := do(kind, env.Req{Path: env.PathLogin, Query: "id=" + url.QueryEscape(id)})
 					if call.Panic == "" && done {
 						if !call.D.Success() {
-							report("own_callback_failed", kind, fmt.Sprintf("client %d: completed session %s not answered with Success (status %d)", c, id, call.D.Status), call)
+							// a provider may treat a request as used up once it has been answered: only the first callback
+							// of a completed session has to succeed
+							if !st.answered[id] {
+								report("own_callback_failed", kind, fmt.Sprintf("client %d: completed session %s not answered with Success at its first callback (status %d)", c, id, call.D.Status), call)
+							} else {
+								kinds["callback_repeated_refused"].Add(1)
+							}
 						} else {
+							st.answered[id] = true
 							m := call.D.Msg
 							if d := setDiffList(attrMultiset(st.ref), attrMultiset(msgAttrs(m))); d != "" {
 								report("reply_not_determined_by_own_request", kind, fmt.Sprintf("client %d: attribute statement differs from the registered record of %s: %s", c, st.user.Username, d), call)
